@@ -90,6 +90,13 @@ let () = iter_lines (fun line ->
         | [ty; tok; ps] -> { wa_type = s_of ty; wa_token = ov tok; wa_params = kvs ov ps } | _ -> failwith "walist") in
       (match wa_assign_list (kvs s_of init) (List.map item items) with
        | (h, None) -> pout (OPairs h) | (_, Some e) -> pout (OErr e))
+  | ["hp"; init; attr; v] ->
+      let h = kvs s_of init and a = s_of attr in
+      let pv = (match v.[0] with 's' -> PStr (s_of (sub1 v)) | 'i' -> PInt (zi (sub1 v)) | 'l' -> PList (lst '/' (sub1 v)) | _ -> failwith "pval") in
+      (match hp_set h a pv with
+       | (_, Some e) -> pout (OErr e)
+       | (h1, None) -> pstep [hp_text h1 a; hp_get h1 a; hp_get (hp_del h1 a) a; hp_text (hp_del h1 a) a])
+  | ["hpg"; init; attr] -> pout (hp_get (kvs s_of init) (s_of attr))
   | ["pl"; s] -> "L" ^ pl "/" (parse_list_header (s_of s))
   | ["pd"; s] -> (match parse_dict_header (s_of s) with None -> "unsupported" | Some d -> pcd d)
   | ["dl"; l] -> "S" ^ ps (dump_list (lst '/' l))
